@@ -118,9 +118,22 @@ def specCases (X : SchemaX) (o : VOpts) : List STree → List DNode → List EKi
     (if hasData sibs cs.dataSids then specNode X o cs sibs else []) ++ specCases X o rest sibs
 end
 
-/-- the violated constraint families of the whole instance -/
+mutual
+/-- is there a node of a state schema node that is flagged default: an implicit node an earlier validation created, an empty
+non-presence container the client created -/
+def dfltStateN (S : Schema) : DNode → Bool
+  | .inner s f _ ks => (f.dflt && !S.config s) || dfltStateL S ks
+  | .term s f _ _ => f.dflt && !S.config s
+def dfltStateL (S : Schema) : List DNode → Bool
+  | [] => false
+  | n :: ns => dfltStateN S n || dfltStateL S ns
+end
+
+/-- the violated constraint families of the whole instance.  "No state data" (`noState`) is about the nodes of the tree: a
+state node that is there violates it also when it is no client data (flagged default). -/
 def violations (X : SchemaX) (o : VOpts) (t : List DNode) : List EKind :=
-  if o.present && t.isEmpty then [] else specL X o X.top (explicitPart t)
+  if o.present && t.isEmpty then []
+  else specL X o X.top (explicitPart t) ++ (if o.noState && dfltStateL X.base t then [.unexpState] else [])
 
 /-- decidable form of the specification -/
 def validB (X : SchemaX) (o : VOpts) (t : List DNode) : Bool := (violations X o t).isEmpty
